@@ -137,15 +137,19 @@ def Builder.addBlock (b : Builder) (blk : Term Blk) (sub : Term Sub) : Builder :
 def Builder.addProgramBlocks (p : Program) (b : Builder) : Builder :=
   p.subs.foldl (fun b sub => sub.term.blocks.foldl (fun b blk => b.addBlock blk sub) b) b
 
-/-- `GraphBuilder::add_subs_to_call_targets` (the log message of the else-branch is not modelled) -/
+/-- body of the loop of `GraphBuilder::add_subs_to_call_targets` (the log message of the
+else-branch is not modelled) -/
+def Builder.addSubToCallTargets (b : Builder) (sub : Term Sub) : Builder :=
+  match sub.term.blocks with
+  | start :: _ =>
+    match lookup (start.tid, sub.tid) b.jumpTargets with
+    | some target => { b with callTargets := (sub.tid, target) :: b.callTargets }
+    | none => b   -- unreachable: `add_program_blocks` inserted the key
+  | [] => b
+
+/-- `GraphBuilder::add_subs_to_call_targets` -/
 def Builder.addSubsToCallTargets (p : Program) (b : Builder) : Builder :=
-  p.subs.foldl (fun b sub =>
-    match sub.term.blocks with
-    | start :: _ =>
-      match lookup (start.tid, sub.tid) b.jumpTargets with
-      | some target => { b with callTargets := (sub.tid, target) :: b.callTargets }
-      | none => b   -- unreachable: `add_program_blocks` inserted the key
-    | [] => b) b
+  p.subs.foldl Builder.addSubToCallTargets b
 
 /-- The expression used three times in `graph.rs`
 (`add_intraprocedural_edge`, `Jmp::Call`, `Jmp::CallInd`):
